@@ -674,7 +674,12 @@ class HttpRequestParser(HttpParser[RawRequestMessage]):
         if method == "CONNECT":
             # authority-form,
             # https://datatracker.ietf.org/doc/html/rfc7230#section-5.3.3
-            url = URL.build(authority=path, encoded=True)
+            try:
+                url = URL.build(authority=path, encoded=True)
+            except ValueError:
+                raise InvalidURLError(
+                    path.encode(errors="surrogateescape").decode("latin1")
+                ) from None
         elif path.startswith("/"):
             # origin-form,
             # https://datatracker.ietf.org/doc/html/rfc7230#section-5.3.1
@@ -697,7 +702,17 @@ class HttpRequestParser(HttpParser[RawRequestMessage]):
         else:
             # absolute-form for proxy maybe,
             # https://datatracker.ietf.org/doc/html/rfc7230#section-5.3.2
-            url = URL(path, encoded=True)
+            try:
+                url = URL(path, encoded=True)
+                if url.absolute:
+                    # yarl evaluates host and port lazily; a target such as
+                    # "http://a:b/" would only fail later, in BaseRequest().
+                    url.host
+                    url.port
+            except ValueError:
+                raise InvalidURLError(
+                    path.encode(errors="surrogateescape").decode("latin1")
+                ) from None
             if not url.absolute:
                 # authority-form is only allowed with CONNECT
                 # https://www.rfc-editor.org/info/rfc9112/#section-3.2.3-1
